@@ -190,6 +190,10 @@ func (m *UnsubscribeMessage) Encode(dst []byte) (int, error) {
 		m.SetPacketID(uint16(atomic.AddUint64(&gPacketID, 1) & 0xffff))
 		//this.packetId = uint16(atomic.AddUint64(&gPacketId, 1) & 0xffff)
 	}
+	if m.PacketID() == 0 {
+		// the counter just wrapped to a multiple of 65536; 0 is not a valid identifier
+		m.SetPacketID(uint16(atomic.AddUint64(&gPacketID, 1) & 0xffff))
+	}
 
 	n = copy(dst[total:], m.packetID)
 	//binary.BigEndian.PutUint16(dst[total:], this.packetId)
